@@ -55,6 +55,9 @@ pub fn check_program(ctx: &mut Ctx, src: &str, holes: bool, tag: &str, cli: bool
             if *class != StuckClass::DivByZero {
                 let key = match class {
                     StuckClass::SourceHole => D4_KEY.to_owned(),
+                    // the same finding when the evaluator's own substitution copied the unfilled
+                    // source hole before reaching it
+                    StuckClass::CopiedHole if obs.unresolved_source_hole && obs.eval_open_unresolved > 0 && !d3_applicable(holes, &obs) => D4_KEY.to_owned(),
                     StuckClass::WrongOperand | StuckClass::IfNonBool | StuckClass::ApplyNonFunction | StuckClass::CopiedHole if d3_applicable(holes, &obs) => D3_KEY.to_owned(),
                     c => format!("stuck:{}", stuck_name(c)),
                 };
@@ -113,8 +116,9 @@ impl Prop for C01P {
                 sec("explicit-programs", tier.pick(12_000, 250_000)),
                 sec("inferred-programs", tier.pick(12_000, 250_000)),
                 sec("perturbed-programs", tier.pick(20_000, 400_000)),
+                crate::fw::sec_ex("small-programs-exhaustive", crate::gen_small::total_upto(tier.pick(5, 6)).div_ceil(256)),
             ],
-            "every program accepted by tokenize+parse+type_check among: generated explicit and inferred programs (recursive and mutually recursive groups, nested groups, forward references, higher-order and polymorphic functions, type-level computation, omitted annotations and `_`), single-point perturbations of them (whatever the checker lets through is evaluated), the corpus; the elaborated term is stepped up to 4000 (quick) / 20000 (thorough) steps; non-trivial = distinct accepted program that performed at least one step",
+            "every program accepted by tokenize+parse+type_check among: generated explicit and inferred programs (recursive and mutually recursive groups, nested groups, forward references, higher-order and polymorphic functions, type-level computation, omitted annotations and `_`), single-point perturbations of them (whatever the checker lets through is evaluated), the corpus, and every source program of at most 5 (quick) / 6 (thorough) nodes over the full syntax (exhaustive); the elaborated term is stepped up to 4000 (quick) / 20000 (thorough) steps; non-trivial = distinct accepted program that performed at least one step",
         );
         p.assumptions = vec!["budget exhaustion means 'keeps running' and counts as held; evaluate() and `gram run` are cross-checked against the driven loop on short runs".into()];
         p.floor_evaluations = 10_000;
@@ -141,6 +145,17 @@ impl Prop for C01P {
                 let p = gen_program(&mut r, if explicit { Mode::Explicit } else { Mode::Inferred });
                 let src = print(&p.h, &Style::varied(&mut r), idx).text;
                 check_program(ctx, &src, has_source_holes(&p.h), if explicit { "explicit" } else { "inferred" }, idx % 400 == 0);
+            }
+            "small-programs-exhaustive" => {
+                let maxn = ctx.tier.pick(5, 6);
+                let total = crate::gen_small::total_upto(maxn);
+                let lo = idx * 256;
+                let hi = (lo + 256).min(total);
+                for i in lo..hi {
+                    let h = crate::gen_small::nth(maxn, i);
+                    let src = print(&h, &Style::plain(), 0).text;
+                    check_program(ctx, &src, has_source_holes(&h), "small", false);
+                }
             }
             "perturbed-programs" => {
                 let mut r = Rng::for_case(ctx.seed, 3, idx);
